@@ -103,13 +103,25 @@ def run(ctx, spec):
     outcome["correspondence"]["monitor_judged_impl_steps"] = mon_judged
     outcome["correspondence"]["monitor_rejected"] = len(mon_fails)
     outcome["traces_validated_against_impl"] = mon_judged
-    # ---- history-level judgement (C05): values paid at most once along every episode ----
+    # ---- the state a fresh environment starts from carries the scenario's host definitions (the per-step
+    # comparison reads configuration from the implementation's own states, so this is its premise) ----
     hist_viol = []
+    inits = [c for c in cases if not dyn.has_bad(c["impl_init"])]
+    if inits:
+        res6 = run_driver([[6, c["cmd"][1], [c["impl_init"]]] for c in inits])
+        for c, r6 in zip(inits, res6):
+            if r6 != [-1] and not r6[0][2]:
+                hist_viol_init = dict(kind="history", property=pid, failing_input_found=True, scenario=c["sd"], modes=c["modes"],
+                                      ops=[], what="the state a fresh environment starts from does not carry the scenario's host "
+                                                   "definitions (resetting it does not give the scenario's initial state)",
+                                      impl=str(c["impl_init"])[:1200], prescribed=str(r6[0][1])[:1200])
+                hist_viol = [hist_viol_init]
+                break
     if pid == "C05":
-        hist_viol = history_part(cases, outcome)
+        hist_viol = hist_viol + history_part(cases, outcome)
     # ---- C06: the step-limit flag for EVERY limit of a range, stepped up to and past the limit ----
     if pid == "C06":
-        hist_viol = limit_part(ctx, outcome, rng)
+        hist_viol = hist_viol + limit_part(ctx, outcome, rng)
     # ---- exhaustive bounded exploration: complete reachable transition graphs of small scenarios ----
     ex_viol = explore_part(ctx, spec, outcome, rng)
     if not bad and not rdiffs and not mon_fails and not ex_viol and not hist_viol:
